@@ -3,7 +3,7 @@ def register(PROPS, HARNESS_PKGS):
     lclasses = '{"ok_new", "notjson", "truncated", "emptybody", "emptylist", "nameless", "duplicates", "wrongtype", "nullentry", "deep", "hugenum", "oversized", "nulbytes"}'
     hclasses = '{"garbage", "hugebody", "nobody", "badchunk", "hdronly", "status999", "longheader"}'
     fields = '{"prompt_eval_count", "eval_count", "total_duration", "eval_duration", "prompt_eval_duration", "usage", "all"}'
-    values = '{"normal", "zero", "negative", "huge", "hugeint", "tiny", "nanstr", "infstr", "null", "bool", "object", "array", "string"}'
+    values = '{"normal", "zero", "negative", "huge", "big", "hugeint", "tiny", "nanstr", "infstr", "null", "bool", "object", "array", "string"}'
 
     def g(formats, fmt2):
         return {"module": "Poison", "cfg": "Poison_gen.cfg",
